@@ -116,12 +116,22 @@ impl<const N: usize> Ex<N> {
         // RELOC (C20): only for calls that returned normally
         if self.fail.is_none() && self.faulted.is_none() && !self.window_panicked {
             if let Some(bound) = out.reloc_bound {
-                let post = self.addr_snapshot(x);
+                let mut post = self.addr_snapshot(x);
+                let mut pre = pre_addr.clone();
+                pre.sort_unstable();
+                post.sort_unstable();
                 let mut moved = 0usize;
-                for (id, a) in &pre_addr {
-                    if let Some((_, b)) = post.iter().find(|(pid, _)| pid == id) {
-                        if a != b {
-                            moved += 1;
+                let (mut i, mut j) = (0usize, 0usize);
+                while i < pre.len() && j < post.len() {
+                    match pre[i].0.cmp(&post[j].0) {
+                        std::cmp::Ordering::Less => i += 1,
+                        std::cmp::Ordering::Greater => j += 1,
+                        std::cmp::Ordering::Equal => {
+                            if pre[i].1 != post[j].1 {
+                                moved += 1;
+                            }
+                            i += 1;
+                            j += 1;
                         }
                     }
                 }
